@@ -35,7 +35,7 @@ def _val(v, form):
 
 
 QUICK = ["abc/explicit", "abt/explicit", "abc/generated", "abc/root", "diamond/explicit",
-         "diamond/generated", "fixed/abc", "abk1k0/explicit"]
+         "diamond/generated", "fixed/abc", "abk1k0/explicit", "mix3/abtn/explicit"]
 QUICK_OVR = [("ovr2", "abc/explicit"), ("ovr1", "diamond/explicit"), ("ovr1", "abc/generated")]
 THOROUGH = QUICK + ["abct/explicit", "abcdt/explicit", "abu/explicit/w3", "abt/explicit/w3", "d3/abc/explicit", "d3/abt/generated", "fixed/abt",
                     "abtn/explicit", "abt/generated", "abt/root"]
